@@ -800,17 +800,74 @@ def check_sequences(run, n, st):
 WPRE = PRE + """
 Definition cur_tx (s : state) : bool := if held s then stx s else false.
 (* texts that cannot steer the mock backend's transaction state get the current state as tx_after *)
-Definition norm_msg (s : state) (m : msg) : msg :=
+(* [keep]: ids of Syncs whose batch is BEGIN / COMMIT sent over the extended protocol: they keep their tx_after *)
+Definition norm_msg (keep : list nat) (s : state) (m : msg) : msg :=
   match m with
-  | MS i p _ => MS i p (cur_tx s)
+  | MS i p _ => if existsb (Nat.eqb i) keep then m else MS i p (cur_tx s)
   | MQ i parsed v p tx => if parsed && is_allow v then m else MQ i parsed v p (cur_tx s)
   | _ => m
   end.
-Fixpoint wrun (c : cfg) (s : state) (ops : list msg) : list (msg * bool * bool * list event) :=
+Fixpoint wrun (keep : list nat) (c : cfg) (s : state) (ops : list msg) : list (msg * bool * bool * list event) :=
   match ops with
   | [] => []
-  | m :: r => let m' := norm_msg s m in let '(s', ev) := step c s m' in (m', held s, cur_tx s, ev) :: wrun c s' r
+  | m :: r => let m' := norm_msg keep s m in let '(s', ev) := step c s m' in (m', held s, cur_tx s, ev) :: wrun keep c s' r
   end."""
+
+
+def ext_txn(nid, begin, name=0):
+    """BEGIN / COMMIT over the extended protocol: Parse, Bind, Execute, Sync with ids nid..nid+3.
+    Returns (ops, text override for the Parse's key, id of the Sync that keeps its tx_after)."""
+    ops = [("MP", nid, name, nid, True, ("Allow",)), ("MB", nid + 1, name), ("ME", nid + 2), ("MS", nid + 3, True, begin)]
+    return ops, {nid: ("BEGIN /*c19:%d*/" if begin else "COMMIT /*c19:%d*/") % nid}, nid + 3
+
+
+def followers(nid, in_txn, order, name=0):
+    """one more extended batch and one more simple query (both allowed) on the same connection"""
+    batch = [("MP", nid, name, nid, True, ("Allow",)), ("MB", nid + 1, name), ("ME", nid + 2), ("MS", nid + 3, True, in_txn)]
+    q = [("MQ", nid + 4, True, ("Allow",), True, in_txn)]
+    return (batch + q) if order == 0 else (q + batch)
+
+
+def product_sequences():
+    """every verdict kind x {outer loop, transaction loop entered by a simple BEGIN, by an extended BEGIN, session mode}
+    x {simple Q, extended batch} x caching off/on, each FOLLOWED (both orders) by an allowed extended batch and an allowed
+    simple query on the same connection, then the transaction is closed.  What a dropped batch leaves behind can only
+    show up in the followers."""
+    out = []
+    for ps in (False, True):
+        for ctx in ("outer", "txn_q", "txn_ext", "session"):
+            if ps and ctx == "session":
+                continue            # caching needs transaction mode
+            for vk in ("Allow", "Deny", "Intercept"):
+                for form in ("Q", "batch"):
+                    for order in (0, 1):
+                        cfg = {"parser_on": True, "plugins_on": True, "ps_on": ps, "txn_mode": ctx != "session"}
+                        ops, texts, keep, nid = [], {}, [], 1
+                        in_txn = False
+                        if ctx == "txn_q":
+                            ops.append(("MQ", nid, True, ("Allow",), True, True)); nid += 1; in_txn = True
+                        elif ctx == "txn_ext":
+                            o, t, k = ext_txn(nid, True); ops += o; texts.update(t); keep.append(k); nid += 4; in_txn = True
+                        elif ctx == "session":
+                            ops.append(("MQ", nid, True, ("Allow",), True, False)); nid += 1
+                        v = ("Allow",) if vk == "Allow" else (vk, nid)
+                        name = 1 if ps else 0
+                        if form == "Q":
+                            ops.append(("MQ", nid, True, v, True, in_txn)); nid += 1
+                        else:
+                            ops += [("MP", nid, name, nid, True, v), ("MB", nid + 1, name), ("ME", nid + 2), ("MS", nid + 3, True, in_txn)]; nid += 4
+                        ops += followers(nid, in_txn, order, name); nid += 5
+                        # a second rejected batch right behind the first, then followers again
+                        if vk != "Allow" and form == "batch":
+                            ops += [("MP", nid, name, nid, True, (vk, nid)), ("MS", nid + 1, True, in_txn)]; nid += 2
+                            ops += followers(nid, in_txn, 1 - order, name); nid += 5
+                        if in_txn:
+                            if ctx == "txn_ext":
+                                o, t, k = ext_txn(nid, False); ops += o; texts.update(t); keep.append(k); nid += 4
+                            else:
+                                ops.append(("MQ", nid, True, ("Allow",), True, False)); nid += 1
+                        out.append((cfg, ops, {"texts": texts, "keep": keep}))
+    return out
 
 
 def gen_wire_sequence(rng, maxlen=9):
@@ -847,7 +904,17 @@ def gen_wire_sequence(rng, maxlen=9):
                 continue
             keep.append(m)
         out = keep or [("MS", 1, True, False)]
-    return cfg, out
+    # transaction control over the extended protocol right after a Sync (the batch is then exactly P B E S), and always
+    # one more allowed batch and one more allowed query at the end: leftovers of a dropped batch show up there
+    nid = max(m[1] for m in out) + 1
+    texts, keepids, res, tx = {}, [], [], False
+    for m in out:
+        res.append(m)
+        if m[0] == "MS" and rng.random() < 0.25:
+            begin = rng.random() < 0.6
+            o, t, k = ext_txn(nid, begin); res += o; texts.update(t); keepids.append(k); nid += 4
+    res += followers(nid, rng.random() < 0.3, rng.randint(0, 1))
+    return cfg, res, {"texts": texts, "keep": keepids}
 
 
 def wire_text(kind_id, parsed, v, want_tx=None, cur_tx=False):
@@ -874,7 +941,7 @@ def msg_tuple(pm):
     return tuple(pm)
 
 
-def build_wire_scenario(cfg, rows):
+def build_wire_scenario(cfg, rows, overrides=None):
     """rows: [(msg, held_before, cur_tx_before, events)] from the Coq model.  Returns (scenario, expectations)."""
     from props import wirelib as W
     ids = sorted({m[1] for m, _, _, _ in rows})
@@ -885,7 +952,7 @@ def build_wire_scenario(cfg, rows):
             if m[2] and m[3][0] == "Intercept":
                 rules[m[3][1]] = 1
         elif m[0] == "MP":
-            text_of[("P", m[1])] = wire_text(m[3], m[4], m[5])          # keyed by statement identity
+            text_of[("P", m[1])] = (overrides or {}).get(m[3]) or wire_text(m[3], m[4], m[5])          # keyed by statement identity
             if m[4] and m[5][0] == "Intercept":
                 rules[m[5][1]] = 1
     plug = None
@@ -1021,13 +1088,15 @@ def check_wire(run, n, st):
         run.violation("tie-broken", "wire harness does not build", {"correspondence": "wire harness build", "log": blog[-2000:]}, found_input=False)
         return 0
     from props import wirelib as W
-    seqs = [(dict(c), list(o)) for c, o in FIXED] + [gen_wire_sequence(run.rng) for _ in range(n)]
-    exprs = ["wrun %s init [%s]" % (coq_cfg(c), "; ".join(coq_msg(m) for m in ops)) for c, ops in seqs]
+    prod = product_sequences()
+    st["wire_product"] = len(prod)
+    seqs = [(dict(c), list(o), {}) for c, o in FIXED] + prod + [gen_wire_sequence(run.rng) for _ in range(n)]
+    exprs = ["wrun [%s] %s init [%s]" % ("; ".join(str(k) for k in x.get("keep", [])), coq_cfg(c), "; ".join(coq_msg(m) for m in ops)) for c, ops, x in seqs]
     vals = vlib.coq_eval("c19_wire", WPRE, exprs, shard=20)
     scns, exps, metas = [], [], []
-    for (c, ops), v in zip(seqs, vals):
+    for (c, ops, x), v in zip(seqs, vals):
         rows = [(msg_tuple(r[0]), r[1], r[2], r[3]) for r in pcoq(v)]
-        sc, ex = build_wire_scenario(c, rows)
+        sc, ex = build_wire_scenario(c, rows, x.get("texts"))
         scns.append(sc); exps.append(ex); metas.append((c, [r[0] for r in rows], rows))
     results = W.run_scenarios(bins["wire"], scns)
     for (c, ops, rows), sc, ex, res in zip(metas, scns, exps, results):
@@ -1041,6 +1110,23 @@ def check_wire(run, n, st):
         for g in ex["client"]:
             st["wire_groups"][g[0]] = st["wire_groups"].get(g[0], 0) + 1
         st["wire_forwarded"] += len(ex["backend"])
+        # coverage: rejections (by loop) that are followed by a forwarded extended batch / a forwarded query
+        def fwd_kinds(evs):
+            ks = set()
+            for e in evs:
+                if e[0] == "EvFwd":
+                    ks |= {it[1][0] for it in e[1] if it[0] == "FMsg"}
+            return ks
+        for i, (m, held, cur, evs) in enumerate(rows):
+            if any(e[0] == "EvIntercept" or (e[0] == "EvErr" and isinstance(e[1], tuple) and e[1][0] == "EPlugin") for e in evs if isinstance(e, tuple)):
+                later = set()
+                for r2 in rows[i + 1:]:
+                    later |= fwd_kinds([e for e in r2[3] if isinstance(e, tuple)])
+                loop = ("txn" if cur else "held") if held else "outer"
+                form = "Q" if m[0] == "MQ" else "batch"
+                if "MS" in later and "MQ" in later:
+                    key = "%s/%s" % (loop, form)
+                    st["wire_followed"][key] = st["wire_followed"].get(key, 0) + 1
         if back == ex["backend"] and groups == ex["client"] and hold_ok and not rest:
             continue
         # a disagreement: is it the reported prepared-statement replay / stale intercept (the model predicts them too, so they
@@ -1125,7 +1211,7 @@ def check(run):
                 run.violation("proof-broken", "Plugin/Props.v no longer checks; no failing statement found in the search", {"theorem": "Plugin/Props.v", "coq_log": log[-2500:]}, found_input=False)
         return
     st = {"kf": {}, "rejected": 0, "rejected_by_group": {}, "by_group": {}, "by_pos": {}, "distinct": set(), "spellings": set(), "known": {}, "known_samples": {}, "denied": 0,
-          "gaps_closed": set(), "icpt_kinds": {}, "icpt_matched": 0, "seq": 0, "seq_events": {}, "wire": 0, "wire_groups": {}, "wire_forwarded": 0}
+          "gaps_closed": set(), "icpt_kinds": {}, "icpt_matched": 0, "seq": 0, "seq_events": {}, "wire": 0, "wire_groups": {}, "wire_forwarded": 0, "wire_followed": {}}
     evals = 0
     nt = 1000 if quick else 40000
     cases = gen_table_cases(rng, nt)
@@ -1162,7 +1248,7 @@ def check(run):
                                      "distinct_spellings": len(st["spellings"]), "expected_deny": st["denied"], "intercept_verdicts": st["icpt_kinds"], "intercept_replies_read": st["icpt_matched"],
                                      "known_finding_hits": st["known"], "gap_shapes_now_reported": sorted(st["gaps_closed"]),
                                      "model_sequences": st["seq"], "model_sequence_events": st["seq_events"],
-                                     "wire_scenarios": st["wire"], "wire_reply_groups": st["wire_groups"], "wire_forwarded_messages": st["wire_forwarded"]}
+                                     "wire_scenarios": st["wire"], "wire_product_sequences": st.get("wire_product", 0), "wire_rejections_followed_by_batch_and_query": st.get("wire_followed", {}), "wire_reply_groups": st["wire_groups"], "wire_forwarded_messages": st["wire_forwarded"]}
     run.cov["samples"] = [{"kind": "table_access", "sql": c["sql"], "proto": c["proto"], "listed": [b.decode("utf8", "replace") for b in c["listed"]], "real": c.get("real")} for c in cases[:4]] + \
                          [{"kind": "sequence", **(st.get("seq_sample") or {})}]
     if not quick and proof_ok:
